@@ -8,7 +8,7 @@
    correspondence of this model with the implementation (tools/props/c02.py). *)
 From Coq Require Import ZArith List Bool.
 From Coq Require Import Permutation.
-Require Import PyLib SuiteTypes Crypto KeySchedule QuicKeys QuicPn QuicDissector QuicFrames QuicTls QuicSession TlsRecords QuicPackets QuicBuildP QuicEpochP QuicCryptoP C17RoundP QuicShortP QuicLongPackets QuicLongP QuicInitialP QuicZeroRttP QuicHelloP QuicKeysInstalledP.
+Require Import PyLib SuiteTypes Crypto KeySchedule QuicKeys QuicPn QuicDissector QuicFrames QuicTls QuicSession TlsRecords QuicPackets QuicBuildP QuicEpochP QuicCryptoP C17RoundP QuicShortP QuicLongPackets QuicLongP QuicInitialP QuicZeroRttP QuicHelloP QuicKeysInstalledP QuicFrontP.
 Import ListNotations.
 Open Scope Z_scope.
 
@@ -227,3 +227,30 @@ Theorem C02_quic_keys_installed : forall C keylog s cr suite h ci kl k chs shs c
     qs_epoch_client s' = qs_epoch_client s /\ qs_epoch_server s' = qs_epoch_server s.
 Proof. exact quic_keys_installed. Qed.
 Print Assumptions C02_quic_keys_installed.
+
+(* The front of a connection, composed: the CRYPTO frame with the ServerHello (a whole message at offset 0 of the server's empty
+   Initial-level stream) handed to a session that holds the client random: reassembly delivers the message, the parser reads the
+   selected suite, the keys of C02_quic_keys_installed are installed, the frame's data is kept as CRYPTO data (exported only with -a);
+   packet-number spaces, Initial keys and connection IDs stay.  The conclusions are the premises of C02_handshake_packet_extracted,
+   C02_short_packet_extracted, C02_one_rtt_datagram and C02_key_phase_*. *)
+Theorem C02_quic_server_hello_frame : forall C keylog s pk cr (l3 hv random sid suite rest : bytes) comp h ci kl k chs shs capp sapp,
+  qp_isserver pk = true -> qp_type pk = QInitial ->
+  qt_server (qs_tls s) = [cs0; cs0; cs0; cs0] -> qt_client_random (qs_tls s) = Some cr ->
+  len l3 = 3 -> len hv = 2 -> len random = 32 -> len sid < 256 -> len suite = 2 -> 2 <= len sid + len rest ->
+  from_be l3 = len (hv ++ random ++ [len sid] ++ sid ++ suite ++ [comp] ++ rest) ->
+  suite_choice suite = Some (h, ci, kl) ->
+  dev_quic_keys C kl (filter (fun x => bytes_eqb (s_random x) cr) keylog) h (qs_version s) = Ok k ->
+  q_chs k = Some chs -> q_shs k = Some shs -> q_capp k = Some capp -> q_sapp k = Some sapp ->
+  key_ok ci (t_key chs) = true -> key_ok ci (t_key shs) = true -> key_ok ci (t_key capp) = true -> key_ok ci (t_key sapp) = true ->
+  let msg := [2] ++ l3 ++ hv ++ random ++ [len sid] ++ sid ++ suite ++ [comp] ++ rest in
+  exists s', handle_crypto_frame C keylog s pk 0 (len msg) msg = (s', true) /\
+    qs_cipher s' = Some ci /\
+    qs_handshake s' = Some {| qd_skey := t_key shs; qd_siv := t_iv shs; qd_ckey := t_key chs; qd_civ := t_iv chs |} /\
+    qs_app s' = Some [ {| g_skey := t_key sapp; g_siv := t_iv sapp; g_ckey := t_key capp; g_civ := t_iv capp; g_ssec := t_sec sapp; g_csec := t_sec capp |} ] /\
+    hp_client_handshake (qs_hp s') = Some (t_hp chs) /\ hp_server_handshake (qs_hp s') = Some (t_hp shs) /\
+    hp_client_app (qs_hp s') = Some (t_hp capp) /\ hp_server_app (qs_hp s') = Some (t_hp sapp) /\
+    qt_ciphersuite (qs_tls s') = Some suite /\ qt_client_random (qs_tls s') = Some cr /\ qt_new_data (qs_tls s') = false /\
+    qs_output s' = qs_output s ++ [ {| of_kind := OCrypto; of_data := msg; of_ts := qp_ts pk; of_isserver := true |} ] /\
+    qs_pn s' = qs_pn s /\ qs_initial s' = qs_initial s /\ qs_client_cids s' = qs_client_cids s /\ qs_server_cids s' = qs_server_cids s.
+Proof. exact server_hello_frame. Qed.
+Print Assumptions C02_quic_server_hello_frame.
